@@ -70,7 +70,36 @@ def base_call(t):
     return m.group(1) if m else None
 
 
+def python_runners(facts):
+    """in-file functions that can (transitively) run arbitrary Python code;
+    reference releases are not counted (finalizers are out of scope)"""
+    from ..cexpr import callee
+    direct, calls = set(), {}
+    for f in facts.defined_functions():
+        cs = set()
+        for x in facts.func(f).walk():
+            if x.kind == "CallExpr":
+                c = callee(x)
+                cs.add(c)
+                if c in DECREF or c in INCREF:
+                    continue
+                if (c in API and API[c]["python"]) or c.startswith("->"):
+                    direct.add(f)
+        calls[f] = cs
+    run = set(direct)
+    changed = True
+    while changed:
+        changed = False
+        for f, cs in calls.items():
+            if f not in run and cs & run:
+                run.add(f)
+                changed = True
+    return run
+
+
 class Own:
+    RUNNERS = frozenset()
+
     def __init__(self, facts, fname, params, ret_pointer):
         self.facts, self.fname = facts, fname
         self.params = set(params)
@@ -90,8 +119,35 @@ class Own:
 
     def run(self, p):
         owned, origin, null, dead = {}, {}, set(), {}
+        weak, stale = set(), {}     # held only by a container / after a callback
         out = []
+
+        seen_calls = []
+
+        def mask(t, keep=None):
+            """replace the text of call results already computed on this path
+            (they are values in their own right, not new uses of their
+            operands)"""
+            for ct in sorted(seen_calls, key=len, reverse=True):
+                if ct != keep and len(ct) < len(t) + 1 and ct in t and ct != t:
+                    t = t.replace(ct, "@")
+                elif ct == t and ct != keep:
+                    t = "@"
+            return t
+
+        def check_stale(texts, line, what):
+            for a in texts:
+                for d, dl in stale.items():
+                    if derefs(mask(a, d), d):
+                        out.append(("borrowed-across-callback", d, line,
+                                    f"`{d[:70]}` is not owned by this "
+                                    f"function (it is kept alive only by a "
+                                    f"container) and is used in {what} after "
+                                    f"the call at line {dl}, which can run "
+                                    f"arbitrary Python code that replaces or "
+                                    f"removes it"))
         assigned_globals = set()
+        stored = set()          # values put into a container by this path
         marker = SKIP_PATH_MARKERS.get(self.fname)
         if marker and any(it[0] == "call" and marker[0] in " ".join(it[2])
                           for it in p.trace):
@@ -116,7 +172,7 @@ class Own:
         def check_use(texts, line, what):
             for a in texts:
                 for d, dl in dead.items():
-                    if derefs(a, d):
+                    if derefs(mask(a, d), d):
                         out.append(("use-after-release", d, line,
                                     f"`{d[:70]}` was released at line "
                                     f"{dl} (its only reference) and is "
@@ -161,8 +217,9 @@ class Own:
                     null.add(text)
                     owned[text] = 0
                 # dereference of a dead value inside a condition
+                check_stale([text], 0, f"the condition `{text[:60]}`")
                 for d, dl in dead.items():
-                    if derefs(text, d):
+                    if derefs(mask(text, d), d):
                         out.append(("use-after-release", d,
                                     0, f"`{d[:70]}` is dereferenced in the "
                                     f"condition `{text[:80]}` after its only "
@@ -209,9 +266,11 @@ class Own:
                 if classify(a) or a in origin:
                     if owned[a] > 0:
                         owned[a] -= 1
-                        if owned[a] == 0 and origin[a] == "new" \
-                                and top_callee(a) not in HELD_RESULTS:
-                            dead[a] = line
+                        if owned[a] == 0 and origin[a] == "new":
+                            if top_callee(a) in HELD_RESULTS or a in stored:
+                                weak.add(a)
+                            else:
+                                dead[a] = line
                     elif origin[a] in ("param", "borrowed"):
                         out.append(("release-of-borrowed", a, line,
                                     f"`{c}({a[:60]})` releases a "
@@ -224,6 +283,15 @@ class Own:
                 continue
             # uses
             check_use(args, line, f"`{c}(...)`")
+            check_stale(args, line, f"`{c}(...)`")
+            if c in ("PyDict_SetItem", "PyList_Append", "PyDict_SetItemString") \
+                    and args:
+                stored.add(args[-1])
+            if (c in API and API[c]["python"]) or c.startswith("->") \
+                    or c in Own.RUNNERS:
+                for wv in weak:
+                    if owned.get(wv, 0) <= 0 and wv not in stale:
+                        stale[wv] = line
             for a in args:
                 if a.startswith("&") and a[1:] in self.facts.globals:
                     assigned_globals.add(a[1:])
@@ -234,15 +302,20 @@ class Own:
                         if classify(a) or a in origin:
                             if a not in null:
                                 owned[a] -= 1
+            seen_calls.append(full)
             if self.returns_new(c, full):
                 if track(full, "new"):
                     owned[full] += 1
                     dead.pop(full, None)
             elif c in API and API[c]["ret"] == "borrowed" or \
                     c in BORROWED_RETURNS:
-                track(full, "borrowed")
+                if track(full, "borrowed") and c != "PyErr_Occurred":
+                    weak.add(full)
+                    stale.pop(full, None)
         # return
         if p.outcome[0] == "RETURN" and self.ret_pointer:
+            check_stale([p.outcome[1]], p.lines[-1] if p.lines else 0,
+                        "the return value")
             rv = p.outcome[1]
             if rv not in ("0", "") and rv not in IMMORTAL:
                 if (classify(rv) or rv in origin) and rv not in null:
@@ -328,6 +401,7 @@ def derefs(text, d):
 def analyse_ownership(ctx):
     def compute():
         facts = get_cfacts(ctx)
+        Own.RUNNERS = frozenset(python_runners(facts))
         results = {}
         analysed, skipped = [], []
         for fname in facts.defined_functions():
